@@ -1,4 +1,5 @@
 import StepupModel.Lemmas.KGlobal
+import StepupModel.Lemmas.StableInst
 /-!
 # C09  The stored workflow satisfies its invariants after every transaction
 
@@ -184,6 +185,46 @@ theorem state_hash_consistent_after_every_history (h : List (KConfig × Req)) :
 theorem rejected_request_changes_nothing (cfg : KConfig) (r : Req) (s : KState) (e : Err)
     (h : s.exec cfg r = .error e) : s.step cfg r = s := by
   unfold KState.step; rw [h]
+
+/-! ## Every predicate that the primitive writes keep is an invariant of every history -/
+
+/-- The meta-theorem behind the invariants of this file: `Stable P` lists what the primitive
+writes of the kernel (cache-only row updates, `fileRowWrite`, `stepRowWrite`, edge insertion
+under its kind check, edge deletion, node insertion under a fresh key, node removal, the queue)
+must preserve; every request function of the model is composed of those writes, so `P` then
+holds after every history of accepted and rejected requests. -/
+theorem stable_predicate_is_invariant {P : KState → Prop} (L : Stable P) (h0 : P KState.init)
+    (h : List (KConfig × Req)) : P (KState.init.run h) :=
+  reachable_stable L h0 h
+
+/-- "Dependencies only link files with steps": every edge of every reachable database goes
+file -> step, step -> file or static tree -> file. -/
+theorem dependencies_link_files_with_steps_after_every_history (h : List (KConfig × Req)) :
+    ∀ d ∈ (KState.init.run h).deps, depKindOk d.src.kind d.snk.kind = true :=
+  depsKindOK_reachable h
+
+/-- One row per (kind, label) in every reachable database: a path or a step label never has two
+nodes (the structural half of "every path has one owner"). -/
+theorem one_node_per_key_after_every_history (h : List (KConfig × Req)) :
+    ((KState.init.run h).nodes.map (·.key)).Nodup :=
+  keysNodup_reachable h
+
+theorem stepRowInv_eq (n : Node) : StepRowInv n ↔ StepRowOK n := Iff.rfl
+
+/-- The step-row invariant (deferred => PENDING, holding => RUNNING) after every history whose
+`hold` requests are issued for RUNNING steps, which is what `DirectorHandler.hold` does (it
+resolves the job in flight).  The unguarded statement is false of the model and of the code:
+see `hold_on_idle_step_negation`. -/
+theorem step_rows_consistent_after_every_history_partial (h : List (KConfig × Req))
+    (hg : HoldsGuarded HoldOnRunning KState.init h) :
+    ∀ n ∈ (KState.init.run h).nodes, StepRowInv n :=
+  stepRowsOK_reachable_guarded h hg
+
+/-- `Step.hold` increments `_holding` without looking at the state: a `hold` request for a step
+that is not running leaves a PENDING row with `_holding = 1`. -/
+theorem hold_on_idle_step_negation :
+    StepRowsOK holdWitness ∧ ¬ StepRowsOK (holdWitness.step {} (.hold (stepKey "x"))) :=
+  ⟨hold_request_breaks_stepRowsOK.1, hold_request_breaks_stepRowsOK.2.2⟩
 
 /-! Non-vacuity: concrete rows meet the hypotheses. -/
 example : ∃ n', fileRowWrite { key := ⟨.file, "a"⟩, fstate := .planned } .built (some (some 7)) = .ok n' ∧
